@@ -189,16 +189,43 @@ Definition add_token (it : item) (id : N) : item :=
   | _ => it
   end.
 
+(* structured style: the statement with  ref = id  as its first key-value, placed where an edit run places it:
+   directly after the bracket (the layout that followed the bracket now follows the inserted text), or directly
+   after the target argument; followed by ", " when key-values exist and by "; " when not *)
+Definition push_lay (l : lay) : lay := (32 :: fst l, snd l).
+Definition add_kv (it : item) (id : N) : item :=
+  match it with
+  | IStmt n l us => IStmtA n (mkArgs no_lay None (Some (ref_core id false, [], no_lay, push_lay l)) us)
+  | IStmtA n a =>
+      match a_targ a, a_kvs a with
+      | None, None => IStmtA n (mkArgs no_lay None (Some (ref_core id false, [], no_lay, push_lay (a_l0 a))) (a_msg a))
+      | None, Some (k1, more, lsemi, lafter) =>
+          IStmtA n (mkArgs no_lay None (Some (ref_core id true, (push_lay (a_l0 a), k1) :: more, lsemi, lafter)) (a_msg a))
+      | Some t, None => IStmtA n (mkArgs (a_l0 a) (Some t) (Some (ref_core id false, [], no_lay, push_lay no_lay)) (a_msg a))
+      | Some t, Some (k1, more, lsemi, lafter) =>
+          IStmtA n (mkArgs (a_l0 a) (Some t) (Some (ref_core id true, (push_lay no_lay, k1) :: more, lsemi, lafter)) (a_msg a))
+      end
+  | _ => it
+  end.
+
+(* the statement an edit run makes of a statement reported by entry e: in the message (message style, and
+   structured style under the no-kvp directive) or as a key-value *)
+Definition add_ref (it : item) (e : entry) (id : N) : item :=
+  match e_kind e with KString => add_token it id | _ => add_kv it id end.
+
 (* the items after an edit run that starts numbering at ctr: every statement that lacked a reference carries
-   the token of the next ID at the start of its message; nothing else differs *)
+   the next ID; nothing else differs *)
 Fixpoint retoken (cfg : config) (code : list N) (its : list (lay * item)) (pre : list N) (ctr : N) : list (lay * item) :=
   match its with
   | [] => []
   | (l, it) :: r =>
       let pre1 := (pre ++ render_lay l)%list in
-      if step_missing (item_step cfg code pre1 it)
-      then (l, add_token it ctr) :: retoken cfg code r (pre1 ++ render_item it) (ctr + 1)
-      else (l, it) :: retoken cfg code r (pre1 ++ render_item it) ctr
+      match item_step cfg code pre1 it with
+      | Emit e => if missing_insert e
+                  then (l, add_ref it e ctr) :: retoken cfg code r (pre1 ++ render_item it) (ctr + 1)
+                  else (l, it) :: retoken cfg code r (pre1 ++ render_item it) ctr
+      | _ => (l, it) :: retoken cfg code r (pre1 ++ render_item it) ctr
+      end
   end.
 
 Lemma expected_cons cfg code l it r pre :
@@ -225,6 +252,129 @@ Proof.
   rewrite (stmt_item_split _ H').
   destruct H as [(n & l & us & ->)|(n & a & ->)]; cbn [add_token item_head item_msg a_l0 a_targ a_kvs a_msg];
     rewrite render_msg_app, render_msg_chars, <- !app_assoc; reflexivity.
+Qed.
+
+Lemma default_token_insertable e id :
+  e_prefix e = None -> e_suffix e = None -> insertable the_params e id = default_token id.
+Proof. intros Hp Hs. unfold insertable. rewrite Hp, Hs. reflexivity. Qed.
+
+(* ---- where the reference goes, as text: the item up to the insertion point ---- *)
+Definition head_of (it : item) (e : entry) : list N :=
+  match e_kind e with
+  | KString => item_head it
+  | _ => match it with
+         | IStmt n _ _ => (render_name n ++ [33; 40])%list
+         | IStmtA n a => match a_targ a with
+                         | Some _ => (render_name n ++ 33 :: 40 :: render_lay (a_l0 a) ++ targ_text (a_targ a))%list
+                         | None => (render_name n ++ [33; 40])%list
+                         end
+         | _ => []
+         end
+  end.
+
+Definition ref_eq : list N := [114; 101; 102; 32; 61; 32].      (* "ref = " *)
+
+Lemma render_ref_core id comma : render_core (ref_core id comma) = (ref_eq ++ dec id ++ render_comma comma)%list.
+Proof.
+  unfold render_core, ref_core. cbn [k_key k_l1 k_mod k_val k_comma render_ident i0 ics render_mod render_val render_lay fst snd render_groups app no_lay].
+  unfold render_value. cbn [v_first v_tl render_tl app].
+  destruct (dec_spec id) as (Hne & _ & _). destruct (dec id) as [|d0 ds]; [congruence|].
+  cbn [render_first]. unfold ref_eq. cbn [app]. rewrite ?app_nil_r. reflexivity.
+Qed.
+
+Lemma render_push_lay l : render_lay (push_lay l) = 32 :: render_lay l.
+Proof. reflexivity. Qed.
+
+Lemma insertable_new e id s :
+  e_prefix e = Some (fst (p_fmt_prefix the_params) ++ p_ref_key the_params ++ snd (p_fmt_prefix the_params))%list ->
+  e_suffix e = Some s -> insertable the_params e id = (ref_eq ++ dec id ++ s)%list.
+Proof. intros Hp Hs. unfold insertable. rewrite Hp, Hs. reflexivity. Qed.
+
+Lemma blen_snoc1 a c : c < 128 -> blen (a ++ [c]) = blen a + 1.
+Proof. intros H. rewrite blen_app. cbn [blen]. unfold cplen. destruct (N.ltb_spec c 128); lia. Qed.
+
+Lemma pre_existing_not_missing e : e_kind e = KStructuredPreExisting -> missing_insert e = false.
+Proof. intros H. unfold missing_insert, usable. rewrite H. destruct (exists_ref e); reflexivity. Qed.
+
+Lemma step_split cfg code pre1 it e :
+  item_step cfg code pre1 it = Emit e -> missing_insert e = true ->
+  ((exists n l us, it = IStmt n l us) \/ (exists n a, it = IStmtA n a)) /\
+  exists t, render_item it = (head_of it e ++ t)%list /\ e_pos e = blen (pre1 ++ head_of it e) /\
+            forall id, render_item (add_ref it e id) = (head_of it e ++ insertable the_params e id ++ t)%list.
+Proof.
+  intros H Hm. destruct it as [n l us|n a|n|c]; cbn [item_step] in H; try discriminate.
+  - split; [left; eauto|]. unfold stmt_step in H. remember (render_name n) as nm.
+    destruct (directive_check the_params (p_ignore the_params) code (blen pre1) (p_comment_re the_params)) as [[|]|]; try discriminate.
+    destruct (negb (macro_of_interest nm cfg)); try discriminate.
+    destruct (if cfg_structured cfg then _ else _) as [nk|]; try discriminate.
+    destruct (cfg_structured cfg && negb nk); inversion H; subst e; clear H.
+    + exists (render_lay l ++ 34 :: render_msg us ++ [34])%list.
+      unfold head_of, add_ref. cbn [e_kind e_pos]. rewrite <- Heqnm. split; [|split].
+      * cbn [render_item]. rewrite <- Heqnm, <- !app_assoc. reflexivity.
+      * rewrite !blen_app. change (blen [33; 40]) with 2. change (blen [33]) with 1. lia.
+      * intros id. rewrite (insertable_new _ id [59; 32]) by reflexivity.
+        cbn [add_kv render_item]. rewrite <- Heqnm. unfold render_args.
+        cbn [a_l0 a_targ a_kvs a_msg render_targpart render_kvpart]. unfold render_kvs.
+        rewrite render_ref_core. cbn [render_more render_comma]. rewrite render_push_lay. unfold msg_lit.
+        cbn [render_lay no_lay fst snd render_groups app]. rewrite <- !app_assoc. cbn [app]. rewrite <- ?app_assoc. reflexivity.
+    + exists (render_msg us ++ [34])%list.
+      unfold head_of, add_ref. cbn [e_kind e_pos item_head]. rewrite <- Heqnm. split; [|split].
+      * cbn [render_item]. rewrite <- Heqnm, <- !app_assoc. cbn [app]. rewrite <- ?app_assoc. reflexivity.
+      * f_equal. rewrite <- ?app_assoc. cbn [app]. rewrite <- ?app_assoc. reflexivity.
+      * intros id. rewrite default_token_insertable by reflexivity.
+        cbn [add_token render_item]. rewrite <- Heqnm, render_msg_app, render_msg_chars, <- !app_assoc. cbn [app]. rewrite <- ?app_assoc. reflexivity.
+  - split; [right; eauto|]. unfold stmt_stepA in H. remember (render_name n) as nm.
+    destruct (directive_check the_params (p_ignore the_params) code (blen pre1) (p_comment_re the_params)) as [[|]|]; try discriminate.
+    destruct (negb (macro_of_interest nm cfg)); try discriminate.
+    destruct (if cfg_structured cfg then _ else _) as [nk|]; try discriminate.
+    destruct (cfg_structured cfg && negb nk).
+    + destruct (ref_more _ _) as [[prev vt]|].
+      { inversion H; subst e. rewrite pre_existing_not_missing in Hm by reflexivity. discriminate. }
+      destruct a as [l0 tg kvs msg]. cbn [a_l0 a_targ a_kvs a_msg] in *.
+      remember (targ_text tg) as tt eqn:Ett.
+      destruct tg as [[t lt]|]; injection H as He; subst e;
+        unfold head_of, add_ref; cbn [e_kind e_pos a_targ a_l0 a_kvs a_msg]; rewrite <- Heqnm, <- ?Ett.
+      * (* after the target *)
+        exists (render_kvpart kvs (msg_lit msg [])). split; [|split].
+        -- cbn [render_item]. rewrite <- Heqnm. unfold render_args. cbn [a_l0 a_targ a_kvs a_msg].
+           rewrite render_targpart_text, <- Ett, <- !app_assoc. cbn [app]. rewrite <- ?app_assoc. reflexivity.
+        -- f_equal. rewrite <- ?app_assoc. cbn [app]. rewrite <- ?app_assoc. reflexivity.
+        -- intros id. destruct kvs as [[[[k1 more] lsemi] lafter]|].
+           ++ rewrite (insertable_new _ id [44; 32]) by reflexivity.
+              cbn [add_kv a_targ a_kvs a_l0 a_msg render_item]. rewrite <- Heqnm. unfold render_args.
+              cbn [a_l0 a_targ a_kvs a_msg]. rewrite render_targpart_text, <- Ett. cbn [render_kvpart]. unfold render_kvs.
+              rewrite render_ref_core. cbn [render_more render_comma]. rewrite render_push_lay.
+              cbn [render_lay no_lay fst snd render_groups app]. rewrite <- ?app_assoc. cbn [app]. rewrite <- ?app_assoc. reflexivity.
+           ++ rewrite (insertable_new _ id [59; 32]) by reflexivity.
+              cbn [add_kv a_targ a_kvs a_l0 a_msg render_item]. rewrite <- Heqnm. unfold render_args.
+              cbn [a_l0 a_targ a_kvs a_msg]. rewrite render_targpart_text, <- Ett. cbn [render_kvpart]. unfold render_kvs.
+              rewrite render_ref_core. cbn [render_more render_comma]. rewrite render_push_lay.
+              cbn [render_lay no_lay fst snd render_groups app]. rewrite <- ?app_assoc. cbn [app]. rewrite <- ?app_assoc. reflexivity.
+      * (* directly after the bracket *)
+        exists (render_lay l0 ++ render_kvpart kvs (msg_lit msg []))%list. split; [|split].
+        -- cbn [render_item]. rewrite <- Heqnm. unfold render_args. cbn [a_l0 a_targ a_kvs a_msg render_targpart].
+           rewrite <- !app_assoc. reflexivity.
+        -- rewrite !blen_app. change (blen [33; 40]) with 2. change (blen [33]) with 1. lia.
+        -- intros id. destruct kvs as [[[[k1 more] lsemi] lafter]|].
+           ++ rewrite (insertable_new _ id [44; 32]) by reflexivity.
+              cbn [add_kv a_targ a_kvs a_l0 a_msg render_item]. rewrite <- Heqnm. unfold render_args.
+              cbn [a_l0 a_targ a_kvs a_msg render_targpart render_kvpart]. unfold render_kvs.
+              rewrite render_ref_core. cbn [render_more render_comma]. rewrite render_push_lay.
+              cbn [render_lay no_lay fst snd render_groups app]. rewrite <- ?app_assoc. cbn [app]. rewrite <- ?app_assoc. reflexivity.
+           ++ rewrite (insertable_new _ id [59; 32]) by reflexivity.
+              cbn [add_kv a_targ a_kvs a_l0 a_msg render_item]. rewrite <- Heqnm. unfold render_args.
+              cbn [a_l0 a_targ a_kvs a_msg render_targpart render_kvpart]. unfold render_kvs.
+              rewrite render_ref_core. cbn [render_more render_comma]. rewrite render_push_lay.
+              cbn [render_lay no_lay fst snd render_groups app]. rewrite <- ?app_assoc. cbn [app]. rewrite <- ?app_assoc. reflexivity.
+    + inversion H; subst e; clear H. exists (render_msg (a_msg a) ++ [34])%list.
+      unfold head_of, add_ref. cbn [e_kind e_pos item_head]. rewrite <- Heqnm. split; [|split].
+      * cbn [render_item]. rewrite <- Heqnm. unfold render_args. rewrite render_targpart_text, render_kvpart_text. unfold msg_lit.
+        rewrite <- !app_assoc. cbn [app]. rewrite <- ?app_assoc. reflexivity.
+      * f_equal. rewrite <- ?app_assoc. cbn [app]. rewrite <- ?app_assoc. reflexivity.
+      * intros id. rewrite default_token_insertable by reflexivity.
+        cbn [add_token render_item]. rewrite <- Heqnm. unfold render_args. cbn [a_l0 a_targ a_kvs a_msg].
+        rewrite render_targpart_text, render_kvpart_text. unfold msg_lit.
+        rewrite render_msg_app, render_msg_chars, <- !app_assoc. cbn [app]. rewrite <- ?app_assoc. reflexivity.
 Qed.
 
 (* in message style a reported statement is reported at the first character of its message, with the plain
@@ -258,70 +408,61 @@ Proof.
   rewrite bdrop_cons by lia. replace (1 + blength a - 1) with (blength a) by lia. exact IH.
 Qed.
 
-Lemma default_token_insertable e id :
-  e_prefix e = None -> e_suffix e = None -> insertable the_params e id = default_token id.
-Proof. intros Hp Hs. unfold insertable. rewrite Hp, Hs. reflexivity. Qed.
-
-(* the specification of the written bytes, computed on a canonical file in message style: the encoding of the
+(* the specification of the written bytes, computed on a canonical file, either style: the encoding of the
    canonical file whose items are `retoken` of the original ones *)
-Lemma weave_items cfg code fin : cfg_structured cfg = false ->
+Lemma weave_items cfg code fin :
   forall its pre0 pend ctr,
   weave the_params (utf8_encode (pend ++ render_items its fin)) (blen pre0)
         (filter missing_insert (expected cfg code its (pre0 ++ pend))) ctr
   = Some (utf8_encode (pend ++ render_items (retoken cfg code its (pre0 ++ pend) ctr) fin)).
 Proof.
-  intros Hs. induction its as [|[l it] r IH]; intros pre0 pend ctr.
+  induction its as [|[l it] r IH]; intros pre0 pend ctr.
   - reflexivity.
   - rewrite expected_cons, filter_app. cbn [retoken]. cbv zeta.
     set (pre1 := ((pre0 ++ pend) ++ render_lay l)%list).
-    destruct (item_step cfg code pre1 it) as [|e|] eqn:Est; cbn [step_missing step_entries filter app].
-    1,3: cbn [render_items];
-         replace (pre1 ++ render_item it)%list with (pre0 ++ (pend ++ render_lay l ++ render_item it))%list
-           by (unfold pre1; rewrite <- !app_assoc; reflexivity);
-         replace (pend ++ render_lay l ++ render_item it ++ render_items r fin)%list
-           with ((pend ++ render_lay l ++ render_item it) ++ render_items r fin)%list by (rewrite <- !app_assoc; reflexivity);
-         rewrite IH; rewrite <- !app_assoc; reflexivity.
-    destruct (missing_insert e) eqn:Em.
-    2: { cbn [render_items].
-         replace (pre1 ++ render_item it)%list with (pre0 ++ (pend ++ render_lay l ++ render_item it))%list
-           by (unfold pre1; rewrite <- !app_assoc; reflexivity).
-         replace (pend ++ render_lay l ++ render_item it ++ render_items r fin)%list
-           with ((pend ++ render_lay l ++ render_item it) ++ render_items r fin)%list by (rewrite <- !app_assoc; reflexivity).
-         rewrite IH. rewrite <- !app_assoc. reflexivity. }
-    destruct (message_step_shape cfg code pre1 it e Hs Est) as (Hit & Hpos & Hpf & Hsf).
-    cbn [app weave render_items].
-    rewrite (default_token_insertable e ctr Hpf Hsf), Hpos.
-    rewrite (stmt_item_split it Hit), (add_token_render it ctr Hit).
-    set (chunk := (pend ++ render_lay l ++ item_head it)%list).
-    assert (Hlen : blen (pre1 ++ item_head it) - blen pre0 = blength (utf8_encode chunk)).
+    assert (Hskip : weave the_params (utf8_encode (pend ++ render_items ((l, it) :: r) fin)) (blen pre0)
+                      (filter missing_insert (expected cfg code r (pre1 ++ render_item it))) ctr
+                    = Some (utf8_encode (pend ++ render_items ((l, it) :: retoken cfg code r (pre1 ++ render_item it) ctr) fin))).
+    { cbn [render_items].
+      replace (pre1 ++ render_item it)%list with (pre0 ++ (pend ++ render_lay l ++ render_item it))%list
+        by (unfold pre1; rewrite <- !app_assoc; reflexivity).
+      replace (pend ++ render_lay l ++ render_item it ++ render_items r fin)%list
+        with ((pend ++ render_lay l ++ render_item it) ++ render_items r fin)%list by (rewrite <- !app_assoc; reflexivity).
+      rewrite IH. rewrite <- !app_assoc. reflexivity. }
+    destruct (item_step cfg code pre1 it) as [|e|] eqn:Est; cbn [step_entries filter app]; try exact Hskip.
+    destruct (missing_insert e) eqn:Em; cbn [app]; [|exact Hskip]. clear Hskip.
+    destruct (step_split cfg code pre1 it e Est Em) as (_ & t & Hit & Hpos & Hnew).
+    cbn [weave render_items].
+    rewrite Hpos, Hit, (Hnew ctr).
+    set (chunk := (pend ++ render_lay l ++ head_of it e)%list).
+    assert (Hlen : blen (pre1 ++ head_of it e) - blen pre0 = blength (utf8_encode chunk)).
     { rewrite blength_encode. unfold pre1, chunk. rewrite !blen_app. lia. }
-    assert (Hlt : (blen (pre1 ++ item_head it) <? blen pre0) = false).
+    assert (Hlt : (blen (pre1 ++ head_of it e) <? blen pre0) = false).
     { apply N.ltb_ge. unfold pre1. rewrite !blen_app. lia. }
     rewrite Hlt, Hlen.
-    replace (pend ++ render_lay l ++ (item_head it ++ render_msg (item_msg it) ++ [34]) ++ render_items r fin)%list
-      with (chunk ++ ((render_msg (item_msg it) ++ [34]) ++ render_items r fin))%list
+    replace (pend ++ render_lay l ++ (head_of it e ++ t) ++ render_items r fin)%list
+      with (chunk ++ (t ++ render_items r fin))%list
       by (unfold chunk; rewrite <- !app_assoc; reflexivity).
     rewrite utf8_encode_app, btake_app_exact, bdrop_app_exact.
-    replace (pre1 ++ item_head it ++ render_msg (item_msg it) ++ [34])%list
-      with ((pre1 ++ item_head it) ++ (render_msg (item_msg it) ++ [34]))%list by (rewrite <- !app_assoc; reflexivity).
+    replace (pre1 ++ head_of it e ++ t)%list with ((pre1 ++ head_of it e) ++ t)%list by (rewrite <- !app_assoc; reflexivity).
     rewrite IH.
     f_equal. rewrite <- !utf8_encode_app. f_equal. unfold chunk. rewrite <- !app_assoc. reflexivity.
 Qed.
 
-(* After an edit run in message style -- every tree, lock state, fault oracle and stop point -- a readable
+(* After an edit run, either style -- every tree, lock state, fault oracle and stop point -- a readable
    canonical file is byte-for-byte unchanged, or its bytes are exactly the UTF-8 encoding of the canonical file
-   whose statements without a reference now carry `[ref: N] ` (consecutive N from some c0, in file order) at the
-   start of their message: same layout, same names, same arguments, same other statements, same everything. *)
+   whose statements without a reference now carry one (consecutive N from some c0, in file order): `[ref: N] ` at
+   the start of the message, or `ref = N` as the first key-value (`add_ref`); same layout, same names, same
+   arguments, same other statements, same everything. *)
 Theorem canonical_file_rewritten rc files lk o j b its fin :
   files <> [] -> nth_error files j = Some b ->
   utf8_decode b = Some (render_items its fin) -> items_ok its fin -> o_rfail2 o j = false ->
-  cfg_structured (rc_cfg rc) = false ->
   let new := nth_error (w_src (apply_effs (mkWorld files [] lk)
                                   (ro_effs (run_edit the_params find c_START_REFERENCE_ID rc (Some files) lk o)))) j in
   new = Some b \/
   exists c0, new = Some (utf8_encode (render_items (retoken (rc_cfg rc) (render_items its fin) its [] c0) fin)).
 Proof.
-  intros Hne Hj Hd Hok Hrf Hst. cbv zeta.
+  intros Hne Hj Hd Hok Hrf. cbv zeta.
   destruct (edit_final_content the_params find c_START_REFERENCE_ID rc files lk o j b Hne Hj)
     as [Hlen [Hsame|(c & Hc & Hokk)]].
   - left. exact Hsame.
@@ -330,7 +471,23 @@ Proof.
     rewrite Hrf in Hfe. rewrite (file_entries_canonical (rc_cfg rc) b its fin Hd Hok) in Hfe.
     inversion Hfe; subst es.
     rewrite (decode_is_encode _ _ Hd) in Hw.
-    pose proof (weave_items (rc_cfg rc) (render_items its fin) fin Hst its [] [] c0) as Hwi.
+    pose proof (weave_items (rc_cfg rc) (render_items its fin) fin its [] [] c0) as Hwi.
     cbn [app blen] in Hwi. rewrite Hwi in Hw. inversion Hw; subst c.
     exists c0. exact Hc.
+Qed.
+
+(* which of the two: in message style always the token in the message; in structured style the key-value,
+   except under the no-kvp directive *)
+Lemma add_ref_message cfg code pre1 it e id :
+  cfg_structured cfg = false -> item_step cfg code pre1 it = Emit e -> add_ref it e id = add_token it id.
+Proof.
+  intros Hs H. unfold add_ref. destruct it as [n l us|n a|n|c]; cbn [item_step] in H; try discriminate.
+  - unfold stmt_step in H. rewrite Hs in H. cbn [andb] in H.
+    destruct (directive_check the_params (p_ignore the_params) code (blen pre1) (p_comment_re the_params)) as [[|]|]; try discriminate.
+    destruct (negb (macro_of_interest (render_name n) cfg)); try discriminate.
+    injection H as <-. reflexivity.
+  - unfold stmt_stepA in H. rewrite Hs in H. cbn [andb] in H.
+    destruct (directive_check the_params (p_ignore the_params) code (blen pre1) (p_comment_re the_params)) as [[|]|]; try discriminate.
+    destruct (negb (macro_of_interest (render_name n) cfg)); try discriminate.
+    injection H as <-. reflexivity.
 Qed.
